@@ -74,7 +74,9 @@ func victimFunc(v string) (func(simcore.Label) bool, error) {
 	case v == "consumer":
 		return func(l simcore.Label) bool { return isConsumerSite(l.Site) }, nil
 	case v == "renderer":
-		return func(l simcore.Label) bool { return l.Site == SProd || l.Site == SWrite || l.Site == SClose || l.Site == SSent }, nil
+		return func(l simcore.Label) bool {
+			return l.Site == SProd || l.Site == SWrite || l.Site == SClose || l.Site == SSent
+		}, nil
 	case strings.HasPrefix(v, "producer:"):
 		n, err := strconv.Atoi(v[len("producer:"):])
 		if err != nil {
